@@ -725,3 +725,18 @@ ADD8 = {
 for _pid, _d in ADD8.items():
     for _k, _v in _d.items():
         PROPS[_pid][_k] = (PROPS[_pid].get(_k, "") + " " + _v).strip()
+
+# Round-8 strengthening.
+ADD9 = {
+    "C04": dict(rule="Behaviour T: the handler answers with the uploaded file itself as the response body (three exchanges on one connection)."),
+    "C06": dict(rule="Suite c08c (responses with missing / short / long body files through a real HttpConn, then the fallback response)."),
+    "C09": dict(rule="Suites c20x (an attached get_body_and_reprocess or 3xx response is handed back by log_response as it is) and c13f (a replacement server on the same cache directory while a handler works on an uploaded file)."),
+    "C10": dict(rule="Behaviour T. Suites c04p (handler panics, also with non-string payloads, on a saturated pool while an upload is queued) and c12i (failing accepts on one async thread)."),
+    "C11": dict(rule="c04e: one burst of 12 events of 30000 bytes consumed back to back."),
+    "C12": dict(rule="Kind q (the next request arrives while the first one's handler runs). Suite c12s: max_conns event streams open, one more client is served only once a stream has ended."),
+    "C13": dict(rule="One case holds every slot for 5.6 s before the revocation: no stopped signal before it."),
+    "C19": dict(rule="Suite c19a: an event every 100 / 50 ms with a 1 s per-file age (rotation by age under steady traffic). c19w: events longer than a whole file followed by ordinary ones."),
+}
+for _pid, _d in ADD9.items():
+    for _k, _v in _d.items():
+        PROPS[_pid][_k] = (PROPS[_pid].get(_k, "") + " " + _v).strip()
